@@ -23,6 +23,8 @@ enum Letter {
     Header { ch: u16, size: u64 },
     Body { ch: u16, len: usize },
     ConsumeOk { ch: u16, tag: String },
+    /// the server cancels a consumer (legal); what follows for that tag is addressed to nobody
+    Cancel { ch: u16, tag: String, nowait: bool },
     /// a method only a client may send
     ClientOnly { ch: u16, which: u8 },
     /// a class / method the client does not implement
@@ -49,6 +51,7 @@ fn encode(l: &Letter, body_seed: &mut u8) -> Vec<u8> {
             wire::body(&mut b, *ch, &data)
         }
         Letter::ConsumeOk { ch, tag } => wire::method(&mut b, *ch, &AMQPClass::Basic(B::ConsumeOk(basic::ConsumeOk { consumer_tag: tag.clone() }))),
+        Letter::Cancel { ch, tag, nowait } => wire::method(&mut b, *ch, &AMQPClass::Basic(B::Cancel(basic::Cancel { consumer_tag: tag.clone(), nowait: *nowait }))),
         Letter::ClientOnly { ch, which } => {
             let m = match which % 4 {
                 0 => AMQPClass::Basic(B::Publish(basic::Publish { ticket: 0, exchange: "x".into(), routing_key: "k".into(), mandatory: false, immediate: false })),
@@ -109,7 +112,7 @@ fn read(letters: &[Letter], bodies: &[Vec<u8>], open: &[u16], known_tag: &str, t
     };
     for (i, l) in letters.iter().enumerate() {
         let ch = match l {
-            Letter::Deliver { ch, .. } | Letter::Return { ch } | Letter::GetOk { ch } | Letter::Header { ch, .. } | Letter::Body { ch, .. } | Letter::ConsumeOk { ch, .. } | Letter::ClientOnly { ch, .. } | Letter::Unimplemented { ch, .. } => *ch,
+            Letter::Deliver { ch, .. } | Letter::Return { ch } | Letter::GetOk { ch } | Letter::Header { ch, .. } | Letter::Body { ch, .. } | Letter::ConsumeOk { ch, .. } | Letter::Cancel { ch, .. } | Letter::ClientOnly { ch, .. } | Letter::Unimplemented { ch, .. } => *ch,
             Letter::Channel0Unknown { .. } | Letter::Heartbeat => 0,
         };
         match l {
@@ -197,6 +200,11 @@ fn read(letters: &[Letter], bodies: &[Vec<u8>], open: &[u16], known_tag: &str, t
                     return r;
                 }
             },
+            Letter::Cancel { tag, .. } => {
+                // a server cancel ends the consumer (an unknown tag is ignored); deliveries for it afterwards
+                // are deliveries to an unknown tag
+                tags.retain(|t| !(t.0 == ch && &t.1 == tag));
+            }
             Letter::ConsumeOk { tag, .. } => {
                 if tags.contains(&(ch, tag.clone())) {
                     fail(&mut r, i, format!("DuplicateConsumerTag({},{})", ch, tag), None);
@@ -221,7 +229,7 @@ fn complete(r: &mut Reading, i: usize, ch: u16, deliver_tag: &Option<(String, u6
                 r.violation_at = Some(i);
                 return false;
             }
-            if tags[0] == (ch, tag) {
+            if (ch, tag.as_str()) == (1, "ctag-1-0") {
                 r.delivered.push((dtag, body));
             }
             true
@@ -250,7 +258,13 @@ fn gen_letters(cs: &mut ChoiceStream, known_tag: &str) -> Vec<Letter> {
             6 | 7 | 8 => Letter::Body { ch, len: *pick(cs, "body_len", &[0usize, 1, 5, 10, 11, 27, 37]) },
             9 => Letter::Return { ch },
             10 => Letter::GetOk { ch },
-            11 => Letter::ConsumeOk { ch, tag: if cs.choose("dup_tag", 2) == 0 { known_tag.to_string() } else { "fresh-tag".to_string() } },
+            11 => {
+                if cs.choose("consumeok_or_cancel", 2) == 0 {
+                    Letter::ConsumeOk { ch, tag: if cs.choose("dup_tag", 2) == 0 { known_tag.to_string() } else { "fresh-tag".to_string() } }
+                } else {
+                    Letter::Cancel { ch: if ch == 5 || ch == 0 { 1 } else { ch }, tag: if cs.choose("cancel_known", 3) != 0 { known_tag.to_string() } else { "no-such-tag".to_string() }, nowait: cs.choose("cancel_nowait", 2) == 1 }
+                }
+            }
             12 => Letter::ClientOnly { ch: if ch == 5 { 1 } else { ch }, which: cs.choose("which", 4) as u8 },
             13 => Letter::Unimplemented { ch: if ch == 5 { 2 } else { ch }, which: cs.choose("which", 3) as u8 },
             14 => Letter::Channel0Unknown { which: cs.choose("which", 3) as u8 },
